@@ -97,7 +97,7 @@ def examine(src, K, cap, rng, max_vecs=243):
     r = e2e.run_real(src, False, True)
     if r["exc"]:
         out["status"] = "exc"
-        if r["exc"][0] != "ParseError":
+        if r["exc"][0] not in ("ParseError", "Timeout"):      # the 30 s limit is a harness safety net; termination is property C06
             out["failing"].append({"what": f"raise: Analysis.run(strict=True) raised {r['exc']}", "sig": ["C03", "raise", r["exc"][0], r["exc"][1]],
                                    "input": {"src": src}, "expected": "a result", "observed": r["exc"]})
         return out
